@@ -2,12 +2,15 @@
 Model of `pkg/packet/writer.go` (one `Writer`) together with the `Reader`s linked to it
 (`pkg/packet/reader.go`) and `packet.Join` (`pkg/packet/packet.go`), after the four `fix:`
 commits of C01 (late-link guards in `indexOfHead`/`Unlink`, no emission from a `Write` that
-returns 0, `receive` flushes every complete row, link generations).
+returns 0, `receive` flushes every complete row, link generations) and the fifth (`refused`
+marker: a row none of whose accepting readers is left is answered with `dropped`).
 
 Data layout is the Go one: `readers` is `Writer.readers` (link order), `rows` is
 `Writer.receives` – row j is the response row of the j-th pending write, *index addressed*:
 column i belongs to `readers[i]`; a row written before a late `Link` is shorter than `readers`.
-A cell is `none` for Go's `nil` (answer still owed) and `some a` once filled.
+A cell is `none` for Go's `nil` (answer still owed), `some (some a)` once a reader's answer (or
+drop notice) filled it, and `some none` for the marker `refused` of a reader that was linked but
+did not accept the write.
 
 Every successful `Link` gives the link a fresh generation (`Writer.linked` counts them,
 `Writer.links[i]` is the generation of `readers[i]`'s link).  Per reader only what the writer can
@@ -82,24 +85,34 @@ def join : List Ans → Resp
       | [v] => .val v
       | vs => .vals vs
 
-abbrev Cell := Option Ans
+/-- What a filled cell holds: `some a` – the packet a reader answered with (or the drop notice
+delivered for it); `none` – the unexported marker `refused` that `Write` leaves for a linked
+reader which did not accept the packet (it was already closed). -/
+abbrev Fill := Option Ans
+/-- A cell of a pending row: `none` is Go's `nil` (answer still owed). -/
+abbrev Cell := Option Fill
 abbrev Row := List Cell
 
 /-- `slices.Contains(row, nil)`. -/
 def hasNil (row : Row) : Bool := row.any Option.isNone
 
-/-- The packet emitted for a complete row. `Unlink`'s loop (`emptyDropped = true`) emits
-`New(ErrDroppedPacket)` for a row with no column left; `receive`'s loop calls `Join` directly.
-`filterMap id` only strips the `some`s: the callers have just tested that no cell is nil. -/
-def respOf (emptyDropped : Bool) (row : Row) : Resp :=
-  if emptyDropped && row.isEmpty then .dropped else join (row.filterMap id)
+/-- The packets `joinAccepted` keeps: what the readers that accepted the write answered, in column
+order.  The first `filterMap id` only strips the `some`s (the callers have just tested that no
+cell is nil), the second drops the `refused` markers (`if pck != refused`). -/
+def accepted (row : Row) : List Ans := (row.filterMap id).filterMap id
 
-/-- `for len(w.receives) > 0 && !slices.Contains(w.receives[0], nil) { emit; pop }`. -/
-def flush (emptyDropped : Bool) : List Row → List Row × List Resp
+/-- `joinAccepted(row)`: the packet emitted for a complete row – `New(ErrDroppedPacket)` when no
+reader that accepted the write is left in the row, otherwise `Join` of what they answered. -/
+def respOf (row : Row) : Resp :=
+  if (accepted row).isEmpty then .dropped else join (accepted row)
+
+/-- `for len(w.receives) > 0 && !slices.Contains(w.receives[0], nil) { emit; pop }` – the loop of
+both `Unlink` and `receive`. -/
+def flush : List Row → List Row × List Resp
   | [] => ([], [])
   | row :: rest =>
     if hasNil row then (row :: rest, [])
-    else ((flush emptyDropped rest).1, respOf emptyDropped row :: (flush emptyDropped rest).2)
+    else ((flush rest).1, respOf row :: (flush rest).2)
 
 /-- `indexOfReader`. -/
 def indexOf (r : RId) : List RId → Option Nat
@@ -131,7 +144,7 @@ def indexOfHead (index : Nat) : List Row → Find
       | some (some _) => (indexOfHead index rest).succ
 
 /-- `receives := w.receives[head]; receives[index] = pck` (`none` = index out of range). -/
-def setCell (rows : List Row) (head index : Nat) (a : Ans) : Option (List Row) :=
+def setCell (rows : List Row) (head index : Nat) (a : Fill) : Option (List Row) :=
   match rows[head]? with
   | none => none
   | some row => if index < row.length then some (rows.set head (row.set index (some a))) else none
@@ -198,11 +211,11 @@ def receiveWith (chk : Bool) (m : W) (a : Ans) (r : RId) (link : Nat) : W × Out
       | .panic => (m, { ret := .panic 1 })
       | .notFound => (m, { ret := .ok false })
       | .found head =>
-        match setCell m.rows head index a with
+        match setCell m.rows head index (some a) with
         | none => (m, { ret := .panic 2 })
         | some rows =>
           if head = 0 then
-            ({ m with rows := (flush false rows).1 }, { ret := .ok true, emits := (flush false rows).2 })
+            ({ m with rows := (flush rows).1 }, { ret := .ok true, emits := (flush rows).2 })
           else ({ m with rows := rows }, { ret := .ok true })
 
 abbrev receive (m : W) (a : Ans) (r : RId) (link : Nat) : W × Out := receiveWith true m a r link
@@ -211,9 +224,9 @@ abbrev receive (m : W) (a : Ans) (r : RId) (link : Nat) : W × Out := receiveWit
 def eraseCol (i : Nat) (rows : List Row) : List Row :=
   rows.map fun row => if i < row.length then row.eraseIdx i else row
 
-/-- The row `Write` builds: `None` for a closed reader, nil for one that accepted. -/
+/-- The row `Write` builds: the marker `refused` for a closed reader, nil for one that accepted. -/
 def newRow (closed : RId → Bool) (readers : List RId) : Row :=
-  readers.map fun r => if closed r then some Ans.none else none
+  readers.map fun r => if closed r then some none else none
 
 def accepting (closed : RId → Bool) (readers : List RId) : List RId :=
   readers.filter fun r => !closed r
@@ -238,8 +251,8 @@ def stepWith (chk : Bool) (m : W) : Step → W × Out
       if m.links.length ≤ i then (m, { ret := .panic 4 })    -- w.links[i+1:] out of range
       else
       let rows := eraseCol i m.rows
-      ({ m with readers := m.readers.eraseIdx i, links := m.links.eraseIdx i, rows := (flush true rows).1 },
-       { ret := .ok true, emits := (flush true rows).2 })
+      ({ m with readers := m.readers.eraseIdx i, links := m.links.eraseIdx i, rows := (flush rows).1 },
+       { ret := .ok true, emits := (flush rows).2 })
   | .write v =>
     if m.done then (m, { ret := .cnt 0 })
     else if m.readers.isEmpty then (m, { ret := .cnt 0 })
